@@ -264,3 +264,156 @@ def _classify_use(n: ast.Attribute, p: Optional[ast.AST], f: Func) -> Tuple[bool
     if isinstance(p, ast.Starred):
         return False, "splat"
     return False, type(p).__name__
+
+
+# ---- parallel value tables stay with the name table they were built from ------------------------------
+CODE_LINKS = {"func": "frame", "_compiled": "function"}  # attribute that names an object's compiled code
+
+
+def _resolve_code(e: ast.AST, f: Func, depth: int = 0) -> str:
+    """Normalised text of a compiled-code expression, following one local alias
+    (`compiled = getattr(func, "_compiled", None)` -> `func._compiled`)."""
+    if isinstance(e, ast.Call) and norm(e.func) == "getattr" and len(e.args) >= 2 and isinstance(e.args[1], ast.Constant) and e.args[1].value in CODE_LINKS:
+        return f"{norm(e.args[0])}.{e.args[1].value}"
+    if isinstance(e, ast.Name) and depth < 2:
+        defs = [n.value for n in f.own_nodes() if isinstance(n, ast.Assign) and len(n.targets) == 1 and isinstance(n.targets[0], ast.Name) and n.targets[0].id == e.id]
+        if len(defs) == 1 and (isinstance(defs[0], ast.Attribute) and defs[0].attr in CODE_LINKS or isinstance(defs[0], ast.Call) and norm(defs[0].func) == "getattr"):
+            return _resolve_code(defs[0], f, depth + 1)
+    return norm(e)
+
+
+def _code_of_object(obj: ast.AST, field: str, frame_fields: Set[str], f: Func) -> str:
+    """The compiled code an object that carries a parallel table belongs to."""
+    if field in frame_fields:
+        return _resolve_code(ast.Attribute(value=obj, attr="func", ctx=ast.Load()), f)
+    # function object: an explicit `obj._compiled = R` in this function wins
+    for n in f.own_nodes():
+        if isinstance(n, ast.Assign) and len(n.targets) == 1 and isinstance(n.targets[0], ast.Attribute) and n.targets[0].attr == "_compiled" and norm(n.targets[0].value) == norm(obj):
+            return _resolve_code(n.value, f)
+    return f"{norm(obj)}._compiled"
+
+
+def rule_parallel_tables(ctx, rep, rid: str) -> None:
+    """closure_cells / cell_storage are value tables that parallel a hash-ordered NAME table (free_vars /
+    cell_vars) of ONE compiled function: position i means name i of that table.  Handing such a table to an
+    object that runs different compiled code pairs it with another name table, whose order differs with the
+    host's hash seed even when the two tables hold the same names."""
+    rep.rule(rid, "a value table built by iterating a hash-ordered name table (closure cells ~ free_vars, cell storage ~ cell_vars) is only attached to, or passed on between, objects that run the very compiled function whose name table it parallels; indexes into it come from that function's table", floor=4)
+    setfuncs = _set_functions(ctx)
+    funcs = [f for f in ctx.tree.funcs if f.module.name in MODULES and not isinstance(f.node, ast.Lambda)]
+    # frame fields: dataclass fields of the class that has a `func` field next to them
+    frame_fields: Set[str] = set()
+    for lst in ctx.tree.classes.values():
+        for ci in lst:
+            fields = [n.target.id for n in ci.node.body if isinstance(n, ast.AnnAssign) and isinstance(n.target, ast.Name)]
+            if "func" in fields and "ip" in fields:
+                frame_fields |= set(fields)
+                frame_cls = ci.name
+    if not frame_fields:
+        raise AnalysisError("call-frame class not found")
+    # 1. build sites: for v in O.T: L.append(..)  ...  X.F = L  /  Frame(F=L)
+    name_tables = {"free_vars", "cell_vars"}
+    par: Dict[str, str] = {}  # parallel field -> name table
+    builds = []  # (f, local, table, owner text, loop)
+    for f in funcs:
+        for loop in f.own_nodes():
+            if isinstance(loop, ast.For) and isinstance(loop.iter, ast.Attribute) and loop.iter.attr in name_tables:
+                for c in ast.walk(ast.Module(body=loop.body, type_ignores=[])):
+                    if isinstance(c, ast.Call) and isinstance(c.func, ast.Attribute) and c.func.attr == "append" and isinstance(c.func.value, ast.Name):
+                        b = (f, c.func.value.id, loop.iter.attr, _resolve_code(loop.iter.value, f), loop)
+                        if b[:4] not in [x[:4] for x in builds]:
+                            builds.append(b)
+    for f, local, table, owner, loop in builds:
+        # where does the local go?
+        for n in f.own_nodes():
+            tgt = None
+            if isinstance(n, ast.Assign) and isinstance(n.value, ast.Name) and n.value.id == local and len(n.targets) == 1 and isinstance(n.targets[0], ast.Attribute):
+                tgt = (n.targets[0].attr, _code_of_object(n.targets[0].value, n.targets[0].attr, frame_fields, f), n.lineno)
+            if isinstance(n, ast.Call) and call_name(n) == frame_cls:
+                for kw in n.keywords:
+                    if isinstance(kw.value, ast.Name) and kw.value.id == local:
+                        code = next((_resolve_code(k.value, f) for k in n.keywords if k.arg == "func"), "?")
+                        tgt = (kw.arg, code, n.lineno)
+            if tgt is None:
+                continue
+            field, code, line = tgt
+            par.setdefault(field, table)
+            key = f"{f.qual}:build:{field}~{table}"
+            if code == owner and par[field] == table:
+                rep.ok(rid, key, {"owner": owner})
+            else:
+                rep.bad(rid, key, f"{f.qual} builds `{local}` by iterating {owner}.{table} but attaches it as .{field} to an object that runs {code}: positions of the two tables differ with the hash seed", f"{f.module.rel}:{line}")
+    if len(par) < 2:
+        raise AnalysisError(f"parallel tables not recognised (found {sorted(par)})")
+    # the function-object twin of a frame field (closure_cells <-> _closure_cells) parallels the same table
+    for fld in list(par):
+        par.setdefault(fld.lstrip("_") if fld.startswith("_") else "_" + fld, par[fld])
+    rep.analysed["parallel_tables"] = dict(par)
+
+    def source_of(v: ast.AST, f: Func, depth: int = 0):
+        """(object expr, field) when v reads a parallel field (directly, via getattr, or via one local)."""
+        if isinstance(v, ast.Attribute) and v.attr in par:
+            return v.value, v.attr
+        if isinstance(v, ast.Call) and norm(v.func) == "getattr" and len(v.args) >= 2 and isinstance(v.args[1], ast.Constant) and v.args[1].value in par:
+            return v.args[0], v.args[1].value
+        if isinstance(v, ast.Name) and depth < 2:
+            defs = [n.value for n in f.own_nodes() if isinstance(n, ast.Assign) and len(n.targets) == 1 and isinstance(n.targets[0], ast.Name) and n.targets[0].id == v.id]
+            srcs = [source_of(d, f, depth + 1) for d in defs]
+            srcs = [s for s in srcs if s]
+            if len(srcs) == 1 and len(defs) == 1:
+                return srcs[0]
+        return None
+
+    # 2. transfers
+    built_locals = {(id(f), local) for f, local, *_ in builds}
+    for f in funcs:
+        for n in f.own_nodes():
+            sites = []
+            if isinstance(n, ast.Assign) and len(n.targets) == 1 and isinstance(n.targets[0], ast.Attribute) and n.targets[0].attr in par:
+                sites.append((n.targets[0].attr, n.value, _code_of_object(n.targets[0].value, n.targets[0].attr, frame_fields, f), norm(n.targets[0].value)))
+            if isinstance(n, ast.Call) and call_name(n) == frame_cls:
+                code = next((_resolve_code(k.value, f) for k in n.keywords if k.arg == "func"), "?")
+                for kw in n.keywords:
+                    if kw.arg in par:
+                        sites.append((kw.arg, kw.value, code, frame_cls))
+            for field, v, code, who in sites:
+                if isinstance(v, ast.Name) and (id(f), v.id) in built_locals:
+                    continue  # judged as a build site
+                if isinstance(v, ast.Constant) and v.value is None or isinstance(v, ast.List) and not v.elts:
+                    continue
+                key = f"{f.qual}:transfer:{who}.{field}"
+                src = source_of(v, f)
+                if src is None:
+                    rep.bad(rid, key, f"{f.qual} sets .{field} (a table that parallels {par[field]}) from {short(v, 40)}, which is neither built from that name table nor taken from an object running the same code", f"{f.module.rel}:{n.lineno}")
+                    continue
+                sobj, sfield = src
+                scode = _code_of_object(sobj, sfield, frame_fields, f)
+                if par[sfield] != par[field]:
+                    rep.bad(rid, key, f"{f.qual} passes .{sfield} (parallel to {par[sfield]}) on as .{field} (parallel to {par[field]})", f"{f.module.rel}:{n.lineno}")
+                elif scode != code:
+                    rep.bad(rid, key, f"{f.qual} hands the {par[field]} value table of {norm(sobj)} (code {scode}) to {who} (code {code}): the two functions number their {par[field]} independently, in hash order, so the cells end up under other names for some hash seeds", f"{f.module.rel}:{n.lineno}")
+                else:
+                    rep.ok(rid, key, {"same code": code})
+    # 3. name-derived indexes: X.F[idx] with idx = O.T.index(..): T parallels F and O is X's code
+    for f in funcs:
+        idx_src: Dict[str, Tuple[str, str]] = {}
+        for n in f.own_nodes():
+            if isinstance(n, ast.Assign) and isinstance(n.targets[0], ast.Name) and isinstance(n.value, ast.Call) and isinstance(n.value.func, ast.Attribute) and n.value.func.attr == "index" and isinstance(n.value.func.value, ast.Attribute):
+                t = n.value.func.value
+                idx_src.setdefault(n.targets[0].id, set()).add((t.attr, _resolve_code(t.value, f)))  # type: ignore[arg-type]
+        for n in f.own_nodes():
+            if isinstance(n, ast.Subscript) and isinstance(n.value, ast.Attribute) and n.value.attr in par and isinstance(n.slice, ast.Name) and n.slice.id in idx_src:
+                # the definition that reaches this use: the nearest preceding one
+                defs = [d for d in f.own_nodes() if isinstance(d, ast.Assign) and isinstance(d.targets[0], ast.Name) and d.targets[0].id == n.slice.id and d.lineno <= n.lineno and isinstance(d.value, ast.Call) and isinstance(d.value.func, ast.Attribute) and d.value.func.attr == "index"]
+                if not defs:
+                    continue
+                d = max(defs, key=lambda x: x.lineno)
+                t = d.value.func.value
+                if not isinstance(t, ast.Attribute):
+                    continue
+                key = f"{f.qual}:index:{norm(n.value)}[{n.slice.id}]"
+                code = _code_of_object(n.value.value, n.value.attr, frame_fields, f)
+                if t.attr != par[n.value.attr] or _resolve_code(t.value, f) != code:
+                    rep.bad(rid, key, f"{f.qual} indexes {norm(n.value)} (parallel to {code}.{par[n.value.attr]}) with a position looked up in {norm(t)}", f"{f.module.rel}:{n.lineno}")
+                else:
+                    rep.ok(rid, key)
